@@ -195,6 +195,166 @@ def regex_tie(out, seed, model_ok):
             out.correspondence_breaks.append("regex semantics: %s %r on %r: CPython's re gives match end %r, the Lean matcher %r" % (name, p, st[:80], real, m["len"]))
 
 
+
+# ---------------------------------------------------------------------------
+# big style maps (tens to hundreds of KiB of UTF-8), explicit and as the embedded part
+# ---------------------------------------------------------------------------
+
+BIG_STYLES = 6          # the probe document has one paragraph per style ID K0..K5
+BIG_TAGS = ["h1", "h2", "h3", "h4", "h5", "h6", "blockquote", "div", "pre", "address"]
+WARN_PREFIX = "Did not understand this style mapping, so ignored it: "
+
+
+def big_doc():
+    paras = [el("w:p", [], [el("w:pPr", [], [el("w:pStyle", [("w:val", "K%d" % j)], [])]), el("w:r", [], [el("w:t", [], ["t%d" % j])])]) for j in range(BIG_STYLES)]
+    return [{"name": "word/document.xml", "xml": el("w:document", [], [el("w:body", [], paras)])}]
+
+
+def wide_chars(rng, n, widths=None):
+    """n characters whose UTF-8 encodings are 1-4 bytes long, mostly wide ones, never white space, a line break or a quote"""
+    pools = {1: (0x61, 0x7A), 2: (0x400, 0x4FF), 3: (0x4E00, 0x9FA5), 4: (0x20000, 0x2A6D6)}
+    widths = widths or rng.choice([[3], [2], [4], [1, 2, 3, 4], [2, 3], [3, 3, 3, 1], [4, 4, 1]])
+    return "".join(chr(rng.randint(*pools[rng.choice(widths)])) for _ in range(n))
+
+
+def big_style_map(seed, index, target):
+    """a style map of about `target` UTF-8 bytes (and at most 10^5 characters): comment lines, blank lines, certainly malformed lines
+    (some repeated), well-formed lines about styles the document does not use, all full of 2-4 byte characters so that any byte
+    offset is likely to fall inside a character; and DECISIVE lines `p.K<j> => <tag>:fresh` for the styles of the probe document,
+    spread over the text, the last ones at the very end (the first decisive line of a style wins).  Returns (text, expected tags per
+    paragraph, malformed lines in order of first appearance)."""
+    rng = random.Random((seed * 1000003 + index) * 31 + 5)
+    shape = rng.choice(["long-lines", "short-lines", "mixed", "mixed"])
+    late = rng.sample(range(BIG_STYLES), rng.randint(1, 3))         # styles whose only decisive line is in the tail
+    tail = []
+    for j in late:
+        tail.append("p.K%d => %s:fresh" % (j, rng.choice(BIG_TAGS)))
+    tail.insert(rng.randint(0, len(tail)), "\u2260 tail " + wide_chars(rng, rng.randint(1, 6)))
+    if rng.random() < 0.5:
+        tail.append(rng.choice(["", "# " + wide_chars(rng, rng.randint(1, 40)), "  ", "\u2260 last " + wide_chars(rng, 3)]))
+    tail_bytes = sum(len(l.encode("utf-8")) + 1 for l in tail)
+    lines, size, chars, junk_pool = [], 0, sum(len(l) + 1 for l in tail), []
+    while True:
+        r = rng.random()
+        n = rng.randint(200, 3000) if shape == "long-lines" else rng.randint(1, 12) if shape == "short-lines" else rng.choice([1, 5, 40, 400, 2500])
+        if r < 0.45:
+            l = rng.choice(["#", "# ", "  #", "#p => h1 "]) + wide_chars(rng, n)
+        elif r < 0.5:
+            l = rng.choice(["", " ", "\t", "\r", " \u3000 "])
+        elif r < 0.65:
+            if junk_pool and rng.random() < 0.3:
+                l = rng.choice(junk_pool)                              # identical malformed lines share one warning
+            else:
+                l = rng.choice(["\u2260", "=> ", "p.K0 => => ", "!", "p[style-name='", "r.K1 ="]) + wide_chars(rng, min(n, 60))
+                junk_pool.append(l)
+        elif r < 0.9:
+            nm = wide_chars(rng, min(n, 200))
+            l = rng.choice(["p[style-name='%s'] => div.c:fresh", "r[style-name='%s'] => em", "p[style-name^='%s'] => h3", "table[style-name='%s'] => table.t:fresh"]) % nm
+        else:
+            j = rng.choice([x for x in range(BIG_STYLES) if x not in late] or [late[0]])
+            l = "p.K%d => %s:fresh" % (j, rng.choice(BIG_TAGS)) if j not in late else "p.Z%d => h1" % j
+        b = len(l.encode("utf-8")) + 1
+        if size + b + tail_bytes > target or chars + len(l) + 1 > 100000:
+            break
+        lines.append(l)
+        size += b
+        chars += len(l) + 1
+    # pad to the target with one more comment line of wide characters (when the character budget allows)
+    room = target - size - tail_bytes - 3
+    if room > 0 and chars < 99990:
+        pad = "# " + wide_chars(rng, min(room // 3, 99990 - chars), [3])
+        pad += "x" * max(0, min(room + 3 - len(pad.encode("utf-8")), 99995 - chars - len(pad)))
+        lines.insert(rng.randint(0, len(lines)), pad)
+    lines += tail
+    text = "\n".join(lines)
+    assert len(text) <= 100000, len(text)
+    tags = ["p"] * BIG_STYLES
+    seen = set()
+    for l in lines:
+        m = re.fullmatch(r"p\.K(\d+) => (\w+):fresh", l)
+        if m and int(m.group(1)) not in seen:
+            seen.add(int(m.group(1)))
+            tags[int(m.group(1))] = m.group(2)
+    return text, tags, list(dict.fromkeys(l.strip() for l in junk_pool + [t for t in tail if t.startswith("\u2260")] if l.strip() in [x.strip() for x in lines]))
+
+
+def big_targets(rng, tier):
+    """UTF-8 sizes: a few bytes around and well above powers of two (4 KiB .. 256 KiB), always some beyond 64 KiB and 128 KiB"""
+    near = lambda k: (1 << k) + rng.choice([-2, -1, 0, 1, 2, 3, 5, 17, 100, rng.randint(0, 1 << (k - 1))])
+    ks = [16, 16, 17, 17, 18, rng.choice([16, 17]), rng.randint(12, 15), rng.randint(12, 15)]
+    if tier != "quick":
+        ks += [12, 13, 14, 15, 16, 16, 17, 17, 18, 18, 18]
+    return [near(k) for k in ks]
+
+
+def big_case(seed, index, target):
+    return {"kind": "stylemap-big", "seed": seed, "index": index, "target": target}
+
+
+def check_big(out, case, model, worker=None):
+    """one big style map, explicitly and as the embedded part: no exception; the embedded part is read back as the very same
+    string; both conversions give the same (value, messages); the value shows exactly the decisive mappings (the late ones
+    included); the reading warnings are the model's (and, independently, the malformed lines in order)"""
+    worker = worker or WORKER
+    text, tags, junk = big_style_map(case["seed"], case["index"], case["target"])
+    nbytes = len(text.encode("utf-8"))
+    doc = big_doc()
+    plain = D.build_docx(doc).hex()
+    emb = D.build_docx(doc + [{"name": "mammoth/style-map", "hex": text.encode("utf-8").hex()}], compression=["deflate", None][case["index"] % 2]).hex()
+    want_value = "".join("<%s>t%d</%s>" % (t, j, t) for j, t in enumerate(tags))
+    want_warn = [WARN_PREFIX + l for l in junk]
+    res = {}
+    for mode, req in (("read", {"op": "read", "text": text}), ("embedded-readback", {"op": "readback", "docx": emb}), ("explicit", {"op": "api", "mode": "explicit", "text": text, "docx": plain}),
+                      ("embedded", {"op": "api", "mode": "embedded", "text": text, "docx": emb})):
+        try:
+            r = worker.call(req, 30.0)
+        except Hang:
+            out.violation("a %d-byte style map (%s) was not read within 30 s" % (nbytes, mode), case)
+            return False
+        out.count(key="big-%s-%d-%d" % (mode, case["index"], case["target"]), nontrivial=True)
+        if "err" in r:
+            out.violation("a style map of %d characters / %d UTF-8 bytes (%s) raised %s" % (len(text), nbytes, mode, r["err"]), case, actual=r.get("text"))
+            return True
+        res[mode] = r
+    probs = []
+    if model is not None and "error" not in model and "styles" in model and res["read"] != model:
+        probs.append("result of _read_style_map differs from the readStyleMap specification")
+    if res["embedded-readback"]["text"] != text:
+        got = res["embedded-readback"]["text"]
+        probs.append("read_embedded_style_map returned %s instead of the %d characters of the embedded part" % ("None" if got is None else "%d characters" % len(got), len(text)))
+    for mode in ("explicit", "embedded"):
+        r = res[mode]
+        if r["value"] != want_value:
+            probs.append("%s: the mappings applied are not the first matching lines of the style map: %r, expected %r" % (mode, r["value"][:200], want_value))
+        warn = [m for m in r["messages"] if m.startswith(WARN_PREFIX)]
+        if warn != want_warn:
+            probs.append("%s: %d warnings about malformed lines, the style map has %d distinct malformed lines (first difference: %r / %r)" % (
+                (mode, len(warn), len(want_warn)) + next(((a[:90], b[:90]) for a, b in zip(warn + [""], want_warn + [""]) if a != b), ("", ""))))
+        if model is not None and "error" not in model and warn != model["messages"]:
+            probs.append("%s: warnings differ from the readStyleMap specification" % mode)
+    if (res["explicit"]["value"], res["explicit"]["messages"]) != (res["embedded"]["value"], res["embedded"]["messages"]):
+        probs.append("the same style map gives different results as style_map= and as the embedded part")
+    if probs:
+        out.violation("style map of %d characters / %d UTF-8 bytes: %s" % (len(text), nbytes, "; ".join(probs[:2])), case,
+                      expected={"value": want_value, "warnings": len(want_warn)}, actual={m: {"value": r.get("value", "")[:300], "messages": r.get("messages", [])[:3]} for m, r in res.items() if m in ("explicit", "embedded")})
+    return False
+
+
+def big_maps(out, tier, seed, model_ok):
+    rng = random.Random(seed * 6151 + 3)
+    targets = [t for _ in range(max(1, common.deepen(1))) for t in big_targets(rng, tier)]
+    cases = [big_case(seed, i, t) for i, t in enumerate(targets)]
+    models = run_driver([{"op": "stylemap", "text": big_style_map(c["seed"], c["index"], c["target"])[0]} for c in cases], tag="big") if model_ok else [None] * len(cases)
+    ft = out.extra.setdefault("c07_big_maps", {"cases": 0, "max_bytes": 0, "over_64KiB": 0, "over_128KiB": 0})
+    for c, m in zip(cases, models):
+        nb = len(big_style_map(c["seed"], c["index"], c["target"])[0].encode("utf-8"))
+        ft["cases"] += 1
+        ft["max_bytes"] = max(ft["max_bytes"], nb)
+        ft["over_64KiB"] += nb > 65536
+        ft["over_128KiB"] += nb > 131072
+        check_big(out, c, m)
+
+
 def run(out, tier, seed, model_ok):
     rng = random.Random(seed * 7919 + 7)
     n = common.deepen(3000 if tier == "quick" else 40000)
@@ -268,13 +428,18 @@ def run(out, tier, seed, model_ok):
             if "err" in r and not (t.count(">") > 64):
                 out.violation("conversion with this %s style map raised %s" % (mode, r["err"]), {"kind": "stylemap-api", "text": t[:20000], "mode": mode}, actual=r.get("text"))
     if not hangs:
+        big_maps(out, tier, seed, model_ok)
+    if not hangs:
         timing_ok(out, tier)
     WORKER.close()
     regex_tie(out, seed, model_ok)
     out.rule = ("Unicode strings (random code points, token soups built from the notation's symbols, mutated valid mappings, strings pumped from the loops of the tokeniser's "
                 "own regular expressions, lengths up to %s) read by the real _read_style_map, explicitly and as the embedded part: no exception, warnings quote their line "
                 "and are unique, every non-blank non-# line is applied or reported, result equals the Lean readStyleMap (specified in Properties/C07), and pumped inputs "
-                "of size n, 2n, 4n are read in bounded time; the regexes of Generated.lean (token rules, instruction-text regexes) run by the Lean backtracking matcher give the "
+                "of size n, 2n, 4n are read in bounded time; style maps of 4 KiB to 256 KiB of UTF-8 (sizes around and above powers of two, always beyond 64 KiB and 128 KiB, at most 10^5 "
+                "characters, dense with 2-4 byte characters, decisive mappings and malformed lines up to the very last line) as style_map= and as the embedded part of a probe "
+                "document: the embedded part is read back as the same string, both conversions agree, the value shows exactly the first matching lines, the warnings are the "
+                "malformed lines in order and equal the model's; the regexes of Generated.lean (token rules, instruction-text regexes) run by the Lean backtracking matcher give the "
                 "same match end as CPython's re on pumped and random strings, and its \\s / \\d tables are CPython's at every boundary; non-trivial = both a mapping and a warning present" % ("10^4" if tier == "quick" else "10^5"))
     out.sample(texts[0][:300])
     out.sample(texts[1][:300])
@@ -283,6 +448,15 @@ def run(out, tier, seed, model_ok):
 def replay(out, payload, model_ok):
     case = payload["case"]
     out.count("replay", True)
+    if case.get("kind") == "stylemap-big":
+        out.rule = "replay"
+        out.sample(case)
+        try:
+            m = run_driver([{"op": "stylemap", "text": big_style_map(case["seed"], case["index"], case["target"])[0]}], tag="big")[0] if model_ok else None
+            check_big(out, case, m)
+        finally:
+            WORKER.close()
+        return
     t = case["text"]
     try:
         t0 = time.perf_counter()
